@@ -694,7 +694,79 @@ def prepare_spec(spec):
 
 # ------------------------------------------------------------------ small programs covering every declaration kind
 
+_UF = "".join("fn uf%d(x: f32) -> f32 { var loc%d = x; loc%d += %d.0; return loc%d; }\n" % (i, i, i, i, i) for i in range(10))
+_UFCALL = " + ".join("uf%d(a)" % i for i in range(10))
+
+# every WGSL builtin function, so that every spelling a back end emits for one of them occurs in a baseline output and is
+# tried as the name of a user function (module scope) and of a local (the uf*/loc* entities are there to carry the names)
+BUILTIN_PROGRAMS = [
+    ("c16_builtins_float", _UF + """
+@group(0) @binding(0) var<storage, read_write> o: array<f32>;
+@compute @workgroup_size(1) fn main() {
+  let a = o[0]; let v = vec3<f32>(a, o[1], o[2]); let m = mat2x2<f32>(a, o[1], o[2], o[3]);
+  var acc = """ + _UFCALL + """;
+  acc += abs(a) + acos(a) + acosh(a) + asin(a) + asinh(a) + atan(a) + atanh(a) + atan2(a, a) + ceil(a) + clamp(a, a, a) + cos(a) + cosh(a);
+  acc += degrees(a) + exp(a) + exp2(a) + floor(a) + fma(a, a, a) + fract(a) + inverseSqrt(a) + ldexp(a, 2) + log(a) + log2(a) + max(a, a) + min(a, a);
+  acc += mix(a, a, a) + pow(a, a) + radians(a) + round(a) + saturate(a) + sign(a) + sin(a) + sinh(a) + smoothstep(a, a, a) + sqrt(a) + step(a, a);
+  acc += tan(a) + tanh(a) + trunc(a) + quantizeToF16(a) + select(a, a, a > 0.0);
+  acc += length(v) + distance(v, v) + dot(v, v) + cross(v, v).x + normalize(v).x + faceForward(v, v, v).x + reflect(v, v).x + refract(v, v, a).x;
+  acc += determinant(m) + transpose(m)[0].x + modf(a).fract + modf(a).whole + frexp(a).fract + f32(frexp(a).exp);
+  acc += select(0.0, 1.0, all(v > vec3<f32>(0.0))) + select(0.0, 1.0, any(v > vec3<f32>(0.0))) + f32(arrayLength(&o));
+  acc += mix(v, v, v).x + mix(v, v, a).y + clamp(v, v, v).z + fma(v, v, v).x + smoothstep(v, v, v).x + ldexp(v, vec3<i32>(1)).x + length(a);
+  o[0] = acc;
+}
+"""),
+    ("c16_builtins_int", _UF + """
+@group(0) @binding(0) var<storage, read_write> o: array<u32>;
+@group(0) @binding(1) var<storage, read_write> of: array<f32>;
+@compute @workgroup_size(1) fn main() {
+  let a = of[0]; let u = o[0]; let i = bitcast<i32>(o[1]); let uv = vec4<u32>(u, o[1], o[2], o[3]); let fv = vec4<f32>(a, of[1], of[2], of[3]);
+  var facc = """ + _UFCALL + """;
+  var acc = countOneBits(u) + countLeadingZeros(u) + countTrailingZeros(u) + reverseBits(u) + firstLeadingBit(u) + firstTrailingBit(u);
+  acc += extractBits(u, 1u, 2u) + insertBits(u, u, 1u, 2u) + u32(extractBits(i, 1u, 2u)) + u32(firstLeadingBit(i)) + u32(abs(i)) + u32(sign(i));
+  acc += min(u, 3u) + max(u, 3u) + clamp(u, 1u, 3u) + dot(uv, uv) + select(u, 3u, u > 1u) + u32(dot(vec2<i32>(i), vec2<i32>(i)));
+  acc += pack4x8snorm(fv) + pack4x8unorm(fv) + pack2x16snorm(fv.xy) + pack2x16unorm(fv.xy) + pack2x16float(fv.xy);
+  acc += pack4xI8(vec4<i32>(uv)) + pack4xU8(uv) + pack4xI8Clamp(vec4<i32>(uv)) + pack4xU8Clamp(uv) + dot4U8Packed(u, u) + u32(dot4I8Packed(u, u));
+  facc += unpack4x8snorm(u).x + unpack4x8unorm(u).x + unpack2x16snorm(u).x + unpack2x16unorm(u).x + unpack2x16float(u).x;
+  acc += unpack4xU8(u).x + u32(unpack4xI8(u).x) + countOneBits(uv).x + reverseBits(uv).y + u32(i32(a)) + u32(a) + u32(f32(u));
+  acc += bitcast<u32>(a) + u32(bitcast<i32>(a)) + bitcast<vec4<u32>>(fv).x;
+  o[0] = acc; of[0] = facc;
+}
+"""),
+    ("c16_builtins_fragment", _UF + """
+@group(0) @binding(0) var t2: texture_2d<f32>;
+@group(0) @binding(1) var s: sampler;
+@group(0) @binding(2) var td: texture_depth_2d;
+@group(0) @binding(3) var sc: sampler_comparison;
+@group(0) @binding(4) var ta: texture_2d_array<f32>;
+@group(0) @binding(5) var tc: texture_cube<f32>;
+@group(0) @binding(6) var tm: texture_multisampled_2d<f32>;
+@group(0) @binding(7) var t3: texture_3d<f32>;
+@fragment fn main(@location(0) uv: vec2<f32>) -> @location(0) vec4<f32> {
+  let a = uv.x;
+  var acc = vec4<f32>(""" + _UFCALL + """);
+  acc += textureSample(t2, s, uv) + textureSampleBias(t2, s, uv, 0.5) + textureSampleLevel(t2, s, uv, 1.0) + textureSampleGrad(t2, s, uv, uv, uv);
+  acc += textureGather(0, t2, s, uv) + textureLoad(t2, vec2<i32>(uv), 0) + textureSample(ta, s, uv, 1) + textureSample(tc, s, vec3<f32>(uv, 1.0));
+  acc += vec4<f32>(textureSampleCompare(td, sc, uv, 0.5)) + vec4<f32>(textureSampleCompareLevel(td, sc, uv, 0.5)) + textureGatherCompare(td, sc, uv, 0.5);
+  acc += textureLoad(tm, vec2<i32>(uv), 1) + textureSample(t3, s, vec3<f32>(uv, 0.5)) + textureSampleBaseClampToEdge(t2, s, uv);
+  acc += vec4<f32>(vec2<f32>(textureDimensions(t2)), f32(textureNumLevels(t2)), f32(textureNumLayers(ta))) + vec4<f32>(f32(textureNumSamples(tm)));
+  acc += vec4<f32>(dpdx(a) + dpdy(a) + fwidth(a) + dpdxFine(a) + dpdyFine(a) + fwidthFine(a) + dpdxCoarse(a) + dpdyCoarse(a) + fwidthCoarse(a));
+  return acc;
+}
+"""),
+]
+
 SMALL_PROGRAMS = [
+    ("c16_vertex_struct_inputs", """
+const first: u32 = 1000u;
+const bias = 0.5;
+struct VIn { @location(0) pos: vec4<f32>, @location(1) nrm: vec3<f32>, @builtin(vertex_index) vid: u32, @builtin(instance_index) iid: u32, }
+struct VOut { @builtin(position) p: vec4<f32>, @location(0) c: vec4<f32>, }
+var<private> scale: f32 = 2.0;
+fn helper(q: f32) -> f32 { let t = q * bias; return t + scale; }
+@vertex fn vs(v: VIn) -> VOut { var o: VOut; let k = v.vid + v.iid + first; o.p = v.pos * helper(f32(k)); o.c = vec4<f32>(v.nrm, 1.0); return o; }
+@fragment fn fs(i: VOut) -> @location(0) vec4<f32> { return i.c * bias; }
+"""),
     ("c16_all_kinds", """
 struct Inner { a: f32, b: vec2<f32>, }
 struct Outer { inner: Inner, count: u32, items: array<f32, 4>, }
